@@ -186,6 +186,12 @@ func Walk(v IVisitor, n INode) {
 	case *Field:
 		Walk(v, &n.Name)
 		Walk(v, n.Init)
+	case *ClassElementName:
+		if n.Private != nil {
+			Walk(v, n.Private)
+		} else {
+			Walk(v, &n.PropertyName)
+		}
 	case *ClassDecl:
 		if n.Name != nil {
 			Walk(v, n.Name)
